@@ -7,6 +7,10 @@ from ..paths import enum_paths
 
 
 def run(repo, res):
+    from . import flagsrule
+
+    res.rule("R28.3", "preprocessing keeps the samples: split_disjoint_nodes and the helpers it shares decide sample status by the NODE_IS_SAMPLE bit or ts.samples(), never by comparing the whole flags word (samples may carry further bits)")
+    flagsrule.run(repo, res, "R28.3")
     res.rule("R28.1", "every keyword parameter of preprocess_ts is consumed (passed to the tskit call of the same name, tested in a guard, or folded into another parameter); the two sibling tables.simplify calls pass identical keyword sets that originate from the same parameters; delete_intervals is called with simplify=False; node splitting runs iff split_disjoint; delete_intervals are used as given when supplied")
     res.rule("R28.2", "derived intervals: flanks only under erase_flanks, gaps only when >= minimum_gap, intervals built from adjacent site positions; the output is sorted and built from the same tables")
     f = repo.fn("util", "preprocess_ts")
@@ -97,7 +101,7 @@ def run(repo, res):
     res.require(bad == 0, "R28.2", "util.preprocess_ts every returning path sorts after simplifying and returns tables.tree_sequence()", f"{bad} paths differ", repo.loc(f), f"{len(paths)} paths")
 
 
-VARIANTS = [
+VARIANTS = [dict(name="flags-equality-in-split", mod="util", expect="fire", rule="R28.3", old="    node_is_sample = np.bitwise_and(ts.nodes_flags, tskit.NODE_IS_SAMPLE).astype(bool)", new="    node_is_sample = ts.nodes_flags == tskit.NODE_IS_SAMPLE")] + [
     dict(name="filter-sites-dropped-in-one-sibling", mod="util", expect="fire", rule="R28.1", old="        logger.info(\"No gaps to remove\")\n        tables.simplify(\n            filter_populations=filter_populations,\n            filter_individuals=filter_individuals,\n            filter_sites=filter_sites,", new="        logger.info(\"No gaps to remove\")\n        tables.simplify(\n            filter_populations=filter_populations,\n            filter_individuals=filter_individuals,"),
     dict(name="filter-flags-crossed", mod="util", expect="fire", rule="R28.1", old="        tables.simplify(\n            filter_populations=filter_populations,\n            filter_individuals=filter_individuals,\n            filter_sites=filter_sites,\n            record_provenance=False,\n            **kwargs,\n        )\n    else:", new="        tables.simplify(\n            filter_populations=filter_individuals,\n            filter_individuals=filter_populations,\n            filter_sites=filter_sites,\n            record_provenance=False,\n            **kwargs,\n        )\n    else:"),
     dict(name="delete-intervals-simplifies", mod="util", expect="fire", rule="R28.1", old="        tables.delete_intervals(delete_intervals, simplify=False, record_provenance=False)", new="        tables.delete_intervals(delete_intervals, record_provenance=False)"),
